@@ -108,7 +108,7 @@ def run_C20(ctx, args):
         # ... and three driven chains, at most 7 operations (the bound is hidden from the VIEW: with several
         # workers the explored set can differ by a few states between runs)
         ctx.tlc_mc(d, "MC_Rounds20.tla", "MC_Rounds20_thorough.cfg", workers=8, timeout=3000)
-    for w in ("ReachBackLink", "ReachDummy"):
+    for w in ("ReachBackLink", "ReachDummy", "ReachTooEarly"):
         ctx.tlc_mc(d, "MC_Rounds20.tla", "MC_Rounds20_%s.cfg" % w, workers=4, timeout=900, expect_violation=w, count=False)
     ctx.exhaustive = True
     # ---- E1: every edge of the emission family on a real node
@@ -128,7 +128,8 @@ def run_C20(ctx, args):
             if x["k"] == "F":
                 head = f["num"][x["c"] - 1] if x["c"] - 1 < len(f["num"]) else 0
                 rel = ("own" if x["c"] == o["c"] else "other") + ("<" if x["n"] + 1 < head else "=" if x["n"] + 1 == head else ">")
-            return (o["op"], o["self"], x["k"], rel, o["early"], o["fin"], o["strict"], e["ok"], f["has"][o["c"] - 1])
+            return (o["op"], o["self"], x["k"], rel, o["early"], o["fin"], o["strict"], e["ok"], e.get("why"), f["has"][o["c"] - 1],
+                    f["late"], x["k"] == "F" and x["n"] > 0 and x["c"] != o["c"])
         order = list(range(len(ws)))
         rng.shuffle(order)
         seen, keep, rest = set(), [], []
@@ -160,6 +161,12 @@ def run_C20(ctx, args):
     ctx.cov["accepted_transitions"] = sum(1 for e in ops if e["o"]["op"] != "Add" and e["res"] == "ok")
     ctx.cov["rejected_transitions"] = sum(1 for e in ops if e["o"]["op"] != "Add" and e["res"] != "ok")
     ctx.cov["dummy_starts"] = sum(1 for e in ops if e.get("dummy"))
+    why = {}
+    for w in ws:
+        for e in w:
+            if e["o"]["op"] in ("Start", "Update"):
+                why[e.get("why", "?")] = why.get(e.get("why", "?"), 0) + 1
+    ctx.cov["replayed_steps_by_model_outcome"] = why
     ctx.cov["chain_identifier_references_refused"] = sum(1 for e in ops if e["o"]["op"] != "Add" and e["o"]["ext"]["k"] == "H" and e["res"] == "err")
     ctx.cov["chain_identifier_references_accepted"] = sum(1 for e in ops if e["o"]["op"] != "Add" and e["o"]["ext"]["k"] == "H" and e["res"] == "ok")
     ctx.cov["aborts"] = sum(1 for e in ops if e["res"] == "panic")
@@ -203,8 +210,8 @@ def run_C20(ctx, args):
                            "state_before": bad[1][idx - 1]["obs"] if idx >= 1 else None, "failing_event": ev,
                            "invariant": r2["invariant"]})
     ctx.assumptions += [
-        "all round starts lie within minutes of each other: the 'external reference too early against the best round' rule (more than "
-        "5 h behind) is not exercised; node set = 7 genesis nodes, no membership change",
+        "two time eras six hours apart (round n of a chain starts at era base + n*10 s): the 'external reference too early against the "
+        "best round' rule and the history window are exercised across the eras only; node set = 7 genesis nodes, no membership change",
         "snapshots are put into head rounds through the real Chain.AddSnapshot with an unverified certificate mask (finalization "
         "checks belong to C09); one snapshot per round",
     ]
